@@ -111,6 +111,7 @@ Record rpcase := {
   rp_blocks : list cid;                  (* blocks over all messages, in order of first appearance *)
   rp_paused_seen : bool;                 (* a message carried the RequestPaused status *)
   rp_block_while_paused : bool;          (* a message received after that one and before Unpause was called carried a block *)
+  rp_unpause_ok : bool;                  (* Unpause succeeded (the response really was parked), or there was nothing to unpause *)
   rp_final_ok : bool                     (* the last status was the completion status expected for (plan, R) *)
 }.
 Definition md_eqb (a b : cid * action) : bool := N.eqb (fst a) (fst b) && action_eqb (snd a) (snd b).
@@ -121,6 +122,6 @@ Definition rpcase_mon (c : rpcase) : bool :=
   nodupb (rp_blocks c) &&
   list_eqb N.eqb (fold_right insert_sorted [] (rp_blocks c))
                  (fold_right insert_sorted [] (flat_map (fun it => match i_blk it with Some b => [b] | None => [] end) its)) &&
-  negb (rp_block_while_paused c) && rp_final_ok c &&
+  negb (rp_block_while_paused c) && rp_unpause_ok c && rp_final_ok c &&
   (N.eqb (rp_block c) 0 || rp_paused_seen c || (N.of_nat (length (rp_blocks c)) <? rp_block c)).
 Definition rpcase_ok (c : rpcase) : bool := wf_plan (rp_plan c).
